@@ -234,8 +234,23 @@ func c17Setup() {
 				c17EvMu.Unlock()
 			}
 		})
-		(&util.FileImportLocator{Root: filepath.Join(c17Base, "top/root")}).Resolve("nm")
-		c17Hook = len(c17TakeEvents()) > 0
+		// present if the source of package util names the point (a tree that breaks the test must not look
+		// hookless), or if it fires on a probe
+		if ents, err := os.ReadDir(filepath.Join(repoDir(), "util")); err == nil {
+			for _, e := range ents {
+				if strings.HasSuffix(e.Name(), ".go") && !strings.HasSuffix(e.Name(), "_test.go") {
+					if b, err := os.ReadFile(filepath.Join(repoDir(), "util", e.Name())); err == nil && strings.Contains(string(b), `"c17.open"`) {
+						c17Hook = true
+					}
+				}
+			}
+		}
+		for _, p := range []string{"nm", "../nm", "sub/nm"} {
+			(&util.FileImportLocator{Root: filepath.Join(c17Base, "top/root")}).Resolve(p)
+		}
+		if len(c17TakeEvents()) > 0 {
+			c17Hook = true
+		}
 	}
 }
 
@@ -275,10 +290,8 @@ func c17Resolve(il *util.FileImportLocator, path, rootpos string) string {
 			return c17ObsEv(ev, true, "E+") // content handed back together with an error
 		}
 		if len(ev) == 0 && c17Hook {
-			// no open: the error of filepath.Rel handed through, or the locator's own rejection
-			if _, rerr := filepath.Rel(il.Root, filepath.Clean(filepath.Join(il.Root, path))); rerr != nil && strings.Contains(err.Error(), rerr.Error()) {
-				return c17ObsEv(ev, true, "relerr")
-			}
+			// no open and an error: the locator's own rejection or the error of filepath.Rel handed on - the
+			// property does not tell them apart (and their texts are free to change), so neither does the tie
 			return c17ObsEv(ev, true, "rej")
 		}
 		return c17ObsEv(ev, true, "E")
@@ -370,26 +383,54 @@ func c17ToolResult(tin *tool.CLIInterpreter, path, rootpos string) string {
 	return c17Classify(fmt.Sprint(m["p"]), rootpos)
 }
 
-// c17NewToolArgs configures the interpreter the way the command line does: ParseArgs over
-// `ecal run [-dir <dir>] -loglevel Error <entry file>`, then CreateRuntimeProvider.
-func c17NewToolArgs(dir string, hasDir bool, entry string) (*tool.CLIInterpreter, string) {
+type c17Term struct{ out strings.Builder }
+
+func (t *c17Term) WriteString(s string) { t.out.WriteString(s) }
+
+// c17CLI runs the command line interpreter the way `ecal run` does: CLIInterpreter.Interpret(false), i.e.
+// ParseArgs over `ecal run [-dir <dir>] -loglevel Error [<entry file>]`, LoadStdlibPlugins, CreateTerm,
+// CreateRuntimeProvider, LoadInitialFile. With console = true no entry file is given and the import statement
+// is typed at the console (HandleInput).
+func c17CLI(dir string, hasDir bool, path string, console bool, rootpos string) string {
 	args := []string{"ecal", "run"}
 	if hasDir {
 		args = append(args, "-dir", dir)
 	}
-	args = append(args, "-loglevel", "Error", entry)
+	args = append(args, "-loglevel", "Error")
+	if !console {
+		args = append(args, c17EntryFile(path))
+	}
 	old := tool.VerifSetOsArgs(args)
 	defer tool.VerifSetOsArgs(old)
 	flag.CommandLine = flag.NewFlagSet("ecal", flag.ContinueOnError)
 	flag.CommandLine.SetOutput(io.Discard)
 	tin := tool.NewCLIInterpreter()
-	if tin.ParseArgs() {
-		return nil, "PARSEARGS-EXIT"
+	tin.LogOut = io.Discard
+	err := tin.Interpret(false)
+	if tin.RuntimeProvider != nil {
+		defer tin.RuntimeProvider.Processor.Finish()
 	}
-	if err := tin.CreateRuntimeProvider("c17"); err != nil {
-		return nil, "CREATE-ERROR " + oneLine(err.Error())
+	if err != nil {
+		CountRun("cli-error")
+		return "E"
 	}
-	return tin, ""
+	if console {
+		if !c17PlainLiteral(path) {
+			path = "?"
+		}
+		t := &c17Term{}
+		tin.HandleInput(t, "import \""+path+"\" as x", tin.RuntimeProvider.NewThreadID())
+	}
+	x, ok, _ := tin.GlobalVS.GetValue("x")
+	if !ok {
+		CountRun("cli-error")
+		return "E" // the console prints the error; nothing was imported
+	}
+	m, ok := x.(map[interface{}]interface{})
+	if !ok {
+		return fmt.Sprintf("X-NOT-MAP %T", x)
+	}
+	return c17Classify(fmt.Sprint(m["p"]), rootpos)
 }
 
 func c17NewTool(dir string) (*tool.CLIInterpreter, string) {
@@ -446,10 +487,10 @@ func c17Run(payload string) string {
 	var tin *tool.CLIInterpreter
 	withEvents := true
 	viaArgs, hasDir, dir := false, false, ""
-	if (f[0] == "T" || f[0] == "U") && len(f) == 9 {
+	if (f[0] == "T" || f[0] == "U" || f[0] == "V") && len(f) == 9 {
 		check(os.Chdir(filepath.Join(c17Base, unhx(f[1]))))
 		withEvents = f[3] == f[4] || f[3] == "~" // a symlinked root is modelled as its target: the opened strings differ
-		if f[0] == "U" {
+		if f[0] == "U" || f[0] == "V" {
 			viaArgs, hasDir = true, f[3] != "~"
 			if hasDir {
 				dir = c17Subst(unhx(f[3]))
@@ -462,7 +503,7 @@ func c17Run(payload string) string {
 		}
 		f = append(append([]string{}, f[:3]...), f[4:]...) // drop <dir>: from here on the layout of R
 	}
-	if len(f) != 8 || !strings.Contains("R I T U N", f[0]) {
+	if len(f) != 8 || !strings.Contains("R I T U V N", f[0]) {
 		return "bad-payload"
 	}
 	cwd, root, rootpos := unhx(f[1]), c17Subst(unhx(f[3])), unhx(f[4])
@@ -490,13 +531,9 @@ func c17Run(payload string) string {
 			out = append(out, c17Resolve(il, path, rootpos))
 		case "T":
 			out = append(out, c17Tool(tin, path, rootpos, withEvents))
-		case "U":
-			t, msg := c17NewToolArgs(dir, hasDir, c17EntryFile(path))
-			if t == nil {
-				out = append(out, msg)
-			} else {
-				out = append(out, c17Tool(t, path, rootpos, withEvents))
-			}
+		case "U", "V":
+			c17TakeEvents()
+			out = append(out, c17Obs(withEvents, c17CLI(dir, hasDir, path, f[0] == "V", rootpos)))
 		case "N":
 			out = append(out, c17ImportNamed("t", nil, path, rootpos))
 		default:
@@ -599,6 +636,12 @@ func init() {
 				}
 				return strings.Join([]string{k("U"), hx(cwd), files, d, hx(modelroot), hx(pos), hx(path), "0", "-"}, " ")
 			}
+			emitU := func(what, payload string) {
+				g.Count("cli entry file, " + what)
+				g.Emit(payload)
+				g.Count("cli console input, " + what)
+				g.Emit(k("V") + payload[1:])
+			}
 			type troot struct{ cwd, dir, model, pos, what string }
 			troots := []troot{
 				{"top", "root", "root", "top/root", "existing"},
@@ -619,16 +662,14 @@ func init() {
 				{"top", ".", ".", "top", "dot"},
 				{"top/root", ".", ".", "top/root", "dot"},
 			}
-			upaths := []string{"nm", "../nm", "root/nm", "./nm", "@/top/nm", "../top/nm", "sub/nm", "private"}
+			upaths := []string{"nm", "../nm", "root/nm", "./nm", "@/top/nm", "../top/nm", "sub/nm", "private", "a.b/nm", "../rootX/nm", "/nm", "../../nm", "sub/../nm", "root/../../nm"}
 			for _, p := range upaths {
 				for _, cwd := range []string{"top", "top/root"} {
-					g.Count("tool via ParseArgs, no -dir (default: working directory)")
-					g.Emit(ucase(cwd, "", false, "@/"+cwd, cwd, p))
+					emitU("no -dir (default: working directory)", ucase(cwd, "", false, "@/"+cwd, cwd, p))
 				}
 				for _, r := range [][3]string{{"root", "root", "top/root"}, {"@/top/root", "@/top/root", "top/root"}, {"missing", "missing", "top/missing"},
 					{"dlink", "dlink", "top/dlink"}, {"", "", "top"}, {".", ".", "top"}, {"r t", "r t", "top/r t"}} {
-					g.Count("tool via ParseArgs, -dir")
-					g.Emit(ucase("top", r[0], true, r[1], r[2], p))
+					emitU("-dir", ucase("top", r[0], true, r[1], r[2], p))
 				}
 			}
 			// the provider's default locator (no locator given): rooted at the directory of the executable
